@@ -166,3 +166,78 @@ void bs_flatset_from_vector(void) {
   __CPROVER_assert(!(m == BN && BVB(&a)->_size == 1), "REACHABILITY: a vector of equivalent elements collapses to one (this assertion must fail)");
 }
 #endif
+
+#ifdef BSS_MERGE
+/* ------------------------------------------------------------------------------------------------ SmallSet::merge
+ * each operand is either inline (at most BSS_N pairwise non-equivalent elements in arbitrary order, large container empty) or
+ * large (inline part empty, the abstract large container holds the elements).  Receiver: up to BSS_N inline / 3 large elements;
+ * argument: up to 2 inline / 2 large elements. */
+#define BSV(s) ((struct StaticVectorBase_E_u8 *)&(s)->_vec)
+#define BSD(s) ((E *)&BSV(s)->_firstEl)
+static void bs_make_ss(BSS_T *s, int idx, int tok, _Bool large, uint64_t n, uint64_t nmax_inl, uint64_t nmax_set, int64_t *snap) {
+  BSV(s)->_capa = BSS_N;
+  for (uint64_t i = 0; i < BSS_N; i++) RK(BSD(s) + i) = C_RAW;
+  g_cs[idx].obj = OBJ(&s->_set); g_cs[idx].off = OFF(&s->_set); g_cs[idx].n = 0;
+  for (uint64_t i = 0; i < CS_MAX; i++) RK(g_cs[idx].buf + i) = C_RAW;
+  __CPROVER_assume(large ? (n >= 1 && n <= nmax_set) : n <= nmax_inl);
+  for (uint64_t i = 0; i < n; i++) {
+    int64_t r = nondet_i64();
+    __CPROVER_assume(r >= 0 && r < BDOM);
+    if (large) { if (i > 0) __CPROVER_assume(bs_lt(tok, snap[i - 1], r)); RK(g_cs[idx].buf + i) = r; }
+    else { for (uint64_t j = 0; j < i; j++) __CPROVER_assume(!bs_equiv(tok, snap[j], r)); RK(BSD(s) + i) = r; }
+    snap[i] = r;
+  }
+  BSV(s)->_size = large ? 0 : (uint8_t)n;
+  if (large) g_cs[idx].n = n;
+}
+static _Bool bs_ss_has(BSS_T *s, int idx, int tok, int64_t k) {
+  for (uint64_t i = 0; i < BSV(s)->_size; i++) if (bs_equiv(tok, RK(BSD(s) + i), k)) return 1;
+  for (uint64_t i = 0; i < g_cs[idx].n; i++) if (bs_equiv(tok, RK(g_cs[idx].buf + i), k)) return 1;
+  return 0;
+}
+static void bs_check_ss(BSS_T *s, int idx, int tok) {
+  uint64_t n = BSV(s)->_size;
+  __CPROVER_assert(n <= BSS_N && BSV(s)->_capa == BSS_N, "C04 C05: the inline part holds at most N elements");
+  __CPROVER_assert(n == 0 || g_cs[idx].n == 0, "C04: never both the inline part and the large container non-empty");
+  for (uint64_t i = 0; i < BSS_N; i++) {
+    if (i < n) __CPROVER_assert(c_alive(BSD(s) + i), "C02 C04: every inline element is alive and not moved-from");
+    else __CPROVER_assert(RK(BSD(s) + i) == C_RAW, "C02 C04: no constructed element is left beyond the inline size");
+    for (uint64_t j = 0; j < i && i < n; j++) __CPROVER_assert(!bs_equiv(tok, RK(BSD(s) + i), RK(BSD(s) + j)), "C04: inline elements are pairwise non-equivalent");
+  }
+  for (uint64_t i = 0; i < g_cs[idx].n; i++) __CPROVER_assert(c_alive(g_cs[idx].buf + i), "C02 C04: every element of the large container is alive");
+}
+void bs_smallset_merge(void) {
+  BSS_T a, b;
+  int tok = nondet_int(); __CPROVER_assume(tok >= 0 && tok < 4);
+  g_set_cmp_token = tok; g_allow_elem_throw = 0; g_allow_alloc_fail = 0; l0_exc = 0;
+  int64_t ra[BSS_N], rb[BSS_N];
+  _Bool la = nondet_bool(), lb = nondet_bool();
+#ifdef BSS_LA
+  la = BSS_LA; lb = BSS_LB;          /* one unit per combination of states (inline / large) of the two operands */
+#endif
+#ifdef BSS_TOK
+  __CPROVER_assume(tok == BSS_TOK);     /* one unit per comparator flavour */
+#endif
+  uint64_t na = nondet_u64(), nb = nondet_u64();
+#ifdef BSS_NA_LO
+  __CPROVER_assume(na >= BSS_NA_LO && na <= BSS_NA_HI);     /* one unit per size class of the receiver */
+#endif
+  bs_make_ss(&a, 0, tok, la, na, BSS_N, 3, ra); bs_make_ss(&b, 1, tok, lb, nb, 2, 2, rb);
+  uint64_t ct0 = g_nctor, dt0 = g_ndtor;
+  BSS_MERGE(&a, &b);
+  __CPROVER_assert(l0_exc == 0, "C04: merge does not fail when nothing throws");
+  bs_check_ss(&a, 0, tok); bs_check_ss(&b, 1, tok);
+  uint64_t sa = BSV(&a)->_size + g_cs[0].n, sb = BSV(&b)->_size + g_cs[1].n;
+  __CPROVER_assert(sa + sb == na + nb, "C04: merge neither loses nor duplicates an element");
+  uint64_t uni = 0;
+  for (int64_t k = 0; k < BDOM; k++) {
+    _Bool ia = bs_has(tok, ra, na, k), ib = bs_has(tok, rb, nb, k);
+    __CPROVER_assert(bs_ss_has(&a, 0, tok, k) == (ia || ib), "C04: after merge the receiver holds exactly the union of the two sets");
+    __CPROVER_assert(bs_ss_has(&b, 1, tok, k) == (ia && ib), "C04: the source keeps exactly the elements whose equivalent was already in the receiver");
+  }
+  __CPROVER_assert(!(!la && !lb && sa <= BSS_N) || g_cs[0].n == 0, "C05: a merge whose result fits the inline capacity keeps the receiver inline");
+  __CPROVER_assert((g_nctor - ct0) == (g_ndtor - dt0), "C02: constructions and destructions balance (elements only change owner)");
+  (void)uni;
+  __CPROVER_assert(!(nb >= 1 && sb + 1 == nb), "REACHABILITY: exactly one element of the argument moves over (this assertion must fail)");
+}
+#endif
